@@ -43,10 +43,10 @@ var exprCtx = []string{
 }
 
 type op2desc struct {
-	p, c, pos  int
-	paren      bool
-	set, ctx   int
-	mode       int
+	p, c, pos int
+	paren     bool
+	set, ctx  int
+	mode      int
 }
 
 var op2modes = []int{layOne, layTight, layOpNL}
@@ -129,7 +129,7 @@ type ex struct {
 	pre  string
 }
 
-func lf(s string) *ex        { return &ex{leaf: s} }
+func lf(s string) *ex            { return &ex{leaf: s} }
 func bin(o string, l, r *ex) *ex { return &ex{op: o, l: l, r: r} }
 
 func op3tree(shape int, o1, o2, o3 string) *ex {
